@@ -451,18 +451,26 @@ def _test_literals(t, env):
         return subj, lits, False
     if isinstance(t, ast.Compare) and len(t.ops) == 1:
         op, rhs = t.ops[0], t.comparators[0]
-        if isinstance(op, (ast.Eq, ast.NotEq)) and isinstance(rhs, ast.Constant) and isinstance(rhs.value, str):
-            return pf.src(t.left), [rhs.value], isinstance(op, ast.NotEq)
+        def _str(e):
+            if isinstance(e, ast.Constant) and isinstance(e.value, str):
+                return e.value
+            if isinstance(e, ast.Name) and isinstance(env.get(e.id), ast.Constant) and isinstance(env[e.id].value, str):
+                return env[e.id].value  # module-level named constant
+            return None
+        if isinstance(op, (ast.Eq, ast.NotEq)):
+            if _str(rhs) is not None:
+                return pf.src(t.left), [_str(rhs)], isinstance(op, ast.NotEq)
+            if _str(t.left) is not None and not isinstance(rhs, ast.Constant):
+                return pf.src(rhs), [_str(t.left)], isinstance(op, ast.NotEq)  # "lit" == x
         if isinstance(op, (ast.In, ast.NotIn)):
             vals = None
-            if isinstance(rhs, (ast.List, ast.Tuple)) and rhs.elts and all(
-                    isinstance(e, ast.Constant) and isinstance(e.value, str) for e in rhs.elts):
-                vals = [e.value for e in rhs.elts]
+            if isinstance(rhs, (ast.List, ast.Tuple, ast.Set)) and rhs.elts and all(_str(e) is not None for e in rhs.elts):
+                vals = [_str(e) for e in rhs.elts]
             elif isinstance(rhs, ast.Name) and rhs.id in env:
                 try:
                     v = pf.literal(env[rhs.id], env)
-                    if isinstance(v, (list, tuple)) and v and all(isinstance(x, str) for x in v):
-                        vals = list(v)
+                    if isinstance(v, (list, tuple, set, frozenset)) and v and all(isinstance(x, str) for x in v):
+                        vals = sorted(v)
                 except pf.NotLiteral:
                     pass
             if vals is not None:
@@ -474,10 +482,12 @@ def _term(subject):
     return subject.split(".")[-1].lstrip("_")
 
 
-def _ladder(ifnode, env):
-    """-> (subject, arms literals, else_kind, raising_neg) or None; else_kind in none/raise/other"""
+def _if_chain(ifnode, env):
+    """if/elif chain on one subject -> (subject, arms, else_kind, every_arm_leaves) or None;
+    else_kind in none/raise/other; every_arm_leaves: each arm body ends in return/raise/continue/break"""
     subj, arms = None, []
     cur = ifnode
+    leaves = True
     while True:
         r = _test_literals(cur.test, env)
         if r is None:
@@ -489,15 +499,66 @@ def _ladder(ifnode, env):
         if neg:
             # `elif X != 'etb': raise`  /  `if X not in [...]: raise`: closes the ladder
             if cfgm._raises(cur.body) and not cur.orelse:
-                return subj, arms + lits, "raise"
+                return subj, arms + lits, "raise", leaves
             return None
         arms += lits
+        leaves = leaves and cfgm._terminates(cur.body)
         if len(cur.orelse) == 1 and isinstance(cur.orelse[0], ast.If):
             cur = cur.orelse[0]
             continue
         if not cur.orelse:
-            return subj, arms, "none"
-        return subj, arms, "raise" if cfgm._raises(cur.orelse) else "other"
+            return subj, arms, "none", leaves
+        return subj, arms, ("raise" if cfgm._raises(cur.orelse) else "other"), leaves
+
+
+def _ladder(ifnode, env, consumed=None):
+    """-> (subject, arm literals, else_kind) or None.  Besides if/elif/else, the early-return spelling is read as
+    the same ladder:  if X == A: return ..   if X in (B, C): return ..   raise ..   (each arm leaves the block, the
+    statements after the last `if` play the role of the else branch)"""
+    r = _if_chain(ifnode, env)
+    if r is None:
+        return None
+    subj, arms, els, leaves = r
+    par = getattr(ifnode, "_parent", None)
+    block = None
+    for fld in ("body", "orelse", "finalbody"):
+        b = getattr(par, fld, None)
+        if isinstance(b, list) and any(x is ifnode for x in b):
+            block = b
+    cur = ifnode
+    while els == "none" and leaves and block is not None:
+        k = next(i for i, x in enumerate(block) if x is cur)
+        if k + 1 >= len(block):
+            break
+        nxt = block[k + 1]
+        if isinstance(nxt, ast.If):
+            r2 = _if_chain(nxt, env)
+            if r2 is not None and r2[0] == subj:
+                arms = arms + r2[1]
+                els, leaves = r2[2], r2[3]
+                if consumed is not None:
+                    consumed.add(id(nxt))
+                cur = nxt
+                continue
+        els = "raise" if isinstance(nxt, ast.Raise) else "other"
+        break
+    return subj, arms, els
+
+
+def _all_ladders(mod_ast, env):
+    """every string ladder of the module, each statement counted once -> [(first if node, subject, arms, else_kind)]"""
+    consumed = set()
+    out = []
+    ifs = [n for n in ast.walk(mod_ast) if isinstance(n, ast.If)
+           and not (isinstance(n._parent, ast.If) and n._parent.orelse == [n])]
+    ifs.sort(key=lambda n: (n.lineno, n.col_offset))
+    for n in ifs:
+        if id(n) in consumed:
+            continue
+        lad = _ladder(n, env, consumed)
+        if lad is not None:
+            out.append((n,) + lad)
+    return out
 
 
 def rule_dispatch(chk, prog):
@@ -513,17 +574,17 @@ def rule_dispatch(chk, prog):
                     if lad and lad[2] == "raise":
                         closed.setdefault(_term(lad[0]), []).append(
                             (frozenset(lad[1]), "%s:%s" % (rel, pf.qualname(fn))))
+                if isinstance(n, ast.Assert):
+                    # assert X in (...)  validates like  if X not in (...): raise
+                    r_ = _test_literals(n.test, mod.assigns)
+                    if r_ is not None and not r_[2] and len(r_[1]) >= 1 and isinstance(n.test, ast.Compare) \
+                            and isinstance(n.test.ops[0], ast.In):
+                        closed.setdefault(_term(r_[0]), []).append((frozenset(r_[1]), "%s:%s" % (rel, pf.qualname(fn))))
     chk.extra["validated_closed_sets"] = {k: [sorted(s) for s, _ in v] for k, v in closed.items()}
     n = 0
     unval = {}
     for rel, mod in prog.modules.items():
-        for node in ast.walk(mod.ast):
-            if not isinstance(node, ast.If) or (isinstance(node._parent, ast.If) and node._parent.orelse == [node]):
-                continue
-            lad = _ladder(node, mod.assigns)
-            if lad is None:
-                continue
-            subj, arms, els = lad
+        for node, subj, arms, els in _all_ladders(mod.ast, mod.assigns):
             if len(set(arms)) < 2:
                 continue  # a binary flag test, not a dispatch
             fn = pf.enclosing_func(node)
